@@ -40,7 +40,7 @@ def shellValueTruth (val : Node) : Bool :=
     | some (.flt _) => true
     | some (.cplx z) => !z
     | _ => true
-  else if val.isKind "List" then !(val.kidList "elts").isEmpty
+  else if val.isKind "List" || val.isKind "Tuple" || val.isKind "Set" then !(val.kidList "elts").isEmpty
   else if val.isKind "Dict" then !(val.kidList "keys").isEmpty
   else if val.nameId? == some "False".toList || val.nameId? == some "None".toList then false
   else if val.isNameConst then
@@ -113,6 +113,9 @@ def b606 (cfg : ShellCfg) (e : Env) : M (Option PRaw) := do
       return some { sev := .low, conf := .medium }
   return none
 
+/-- `node = args[0]; if isinstance(node, ast.List) and node.elts: node = node.elts[0]` -/
+def exeNode (a : Node) : Node := if a.isKind "List" then ((a.kidList "elts").head?).getD a else a
+
 def b607 (cfg : ShellCfg) (e : Env) : M (Option PRaw) := do
   let some c := e.call? | throw .attributeError
   if cfg.truthy then
@@ -126,8 +129,7 @@ def b607 (cfg : ShellCfg) (e : Env) : M (Option PRaw) := do
         match c.args with
         | [] => throw .indexError
         | a :: _ =>
-          let node := if a.isKind "List" then ((a.kidList "elts").head?).getD a else a
-          match node.strConst? with
+          match (exeNode a).strConst? with
           | some s => if !fullPathMatch s then
               return some { sev := .low, conf := .high }
           | none => pure ()
